@@ -448,9 +448,16 @@ def conformance(spec, acc):
 
     for kind in ("ebyte", "actisense", "yd"):
         try:
-            want, got = asyncio.run(asyncio.wait_for(one(kind), 20))
+            from ..vloop import real_loop_guard
+            with real_loop_guard(45):
+                want, got = asyncio.run(asyncio.wait_for(one(kind), 20))
         except Exception as e:  # noqa: BLE001
             acc.note(f"conformance run for {kind} could not be completed: {type(e).__name__}: {e}")
+            continue
+        except BaseException as e:  # noqa: BLE001
+            if type(e).__name__ != "StepStalled":
+                raise
+            acc.inconclusive_because("simulator: loop-step-stalled (conformance run on a real event loop and socket: a callback did not return)")
             continue
         acc.count("conformance_runs")
         acc.case(None)
